@@ -2,7 +2,7 @@
 Model of the three affine-gap aligners of /repo/align:
 `NWAffine` (nw_affine_type.got), `SWAffine` (sw_affine_type.got), `FittedAffine`
 (fitted_affine_type.got) and of the `Align` wrappers (nw_affine.go, sw_affine.go,
-fitted_affine.go), as they are after the `fix:` commits F11 and F12.
+fitted_affine.go), as they are after the `fix:` commits F11, F12, K2b and K5.
 
 Conventions
 * Letters are alphabet indices (`Int`, negative = not in the alphabet); the scoring matrix is
@@ -16,8 +16,12 @@ Conventions
   `table[p-c]`, `table[p-1]`, `table[p-c-1]` are written `(i-1,j)`, `(i,j-1)`, `(i-1,j-1)`.
   It is produced row by row in the order the code writes it (each cell is written once and
   reads only cells written before it).
-* Tracebacks follow the `switch` of the template case by case, in source order, whatever
-  the current layer (so a numeric tie can change layer exactly as in the code).
+* Tracebacks follow the `switch` of the template case by case, in source order.  Since the
+  repair of K5 every `case` is guarded by the layer it is a legal predecessor of
+  (`case layer == up && table[p][up] == …`): this is `aware = true`, the model of the code.
+  `aware = false` is the switch as it was before the repair (every `case` compared with
+  `table[p][layer]` whatever the layer, so a numeric tie could move the path to another
+  layer); it is kept for the recogniser of a regression and for the refutation witness.
 Core only.
 -/
 import Biogo.Spec.Alignment
@@ -258,9 +262,9 @@ def TB.emit (st : TB) : TB :=
             maxI := st.i, maxJ := st.j, score := 0 }
 
 /-- one iteration of the traceback loop body after a `case` has matched.  The value in layer
-    `diag`/`up`/`left` of a cell was produced by a diagonal/up/left move, but the `switch`
-    compares every candidate with it whatever the layer: when the first candidate that is
-    numerically equal belongs to another layer, the ghost flag `tie` is raised. -/
+    `diag`/`up`/`left` of a cell was produced by a diagonal/up/left move; the ghost flag `tie`
+    is raised when the `case` taken belongs to another layer than the current one (possible
+    only for the layer-blind switch before the repair of K5, on a numeric tie). -/
 def TB.move (st : TB) (isEnd : Bool) (mv pl : Kind) (v pv : Int) : TB :=
   let tie := st.tie || decide (st.layer ≠ mv)
   let st := if st.last ≠ mv ∧ (mv = .m ∨ ¬ isEnd) then st.emit else st
@@ -269,8 +273,17 @@ def TB.move (st : TB) (isEnd : Bool) (mv pl : Kind) (v pv : Int) : TB :=
             j := if mv = .u then st.j else st.j - 1,
             layer := pl, last := mv, tie := tie }
 
+/-- does `case` `cd` of the switch fire in state `st`, whose current value `table[p][layer]` is
+    `v`?  The repaired switch (`aware = true`) reads `case layer == up && table[p][up] == …`:
+    a `case` is only considered when it is a legal predecessor of the current layer, as the
+    fill computed that layer's value.  The switch before the repair (`aware = false`) compared
+    every `case` with `table[p][layer]` whatever the layer (finding K5). -/
+def caseHit (aware : Bool) (t : Table) (st : TB) (v : Int) (cd : Kind × Kind × Int) : Bool :=
+  (!aware || decide (cd.1 = st.layer)) &&
+    (vadd ((predOf t st.i st.j cd.1).get cd.2.1) cd.2.2 == some v)
+
 /-- `for i > 0 && j > 0 { switch … }`; `fuel` bounds the number of iterations (`i + j`). -/
-def tbLoop (sw : Bool) (t : Table) (S : Matrix) (gapOpen : Int) (r q : List Nat) (R C : Nat) :
+def tbLoop (aware sw : Bool) (t : Table) (S : Matrix) (gapOpen : Int) (r q : List Nat) (R C : Nat) :
     Nat → TB → Except Err TB
   | 0, st => .ok st
   | fuel + 1, st =>
@@ -281,12 +294,11 @@ def tbLoop (sw : Bool) (t : Table) (S : Matrix) (gapOpen : Int) (r q : List Nat)
     | none => .error (.panicNoPath st.i st.j)
     | some v =>
       if sw ∧ v = 0 then .ok st else
-      match (cands sw S gapOpen x y).find?
-          (fun cd => vadd ((predOf t st.i st.j cd.1).get cd.2.1) cd.2.2 == some v) with
+      match (cands sw S gapOpen x y).find? (caseHit aware t st v) with
       | none => .error (.panicNoPath st.i st.j)
       | some (mv, pl, _) =>
         let pv := vget ((predOf t st.i st.j mv).get pl)
-        tbLoop sw t S gapOpen r q R C fuel (st.move (st.i = R ∧ st.j = C) mv pl v pv)
+        tbLoop aware sw t S gapOpen r q R C fuel (st.move (st.i = R ∧ st.j = C) mv pl v pv)
 
 def total (ps : List Pair) : Int := (ps.map (·.score)).sum
 
@@ -294,14 +306,15 @@ def total (ps : List Pair) : Int := (ps.map (·.score)).sum
 
 /-- `NWAffine.alignType` after the letter checks: fill, pick the best layer of the last cell
     (`diag` unless a later layer is strictly larger), trace back, append the leading gap. -/
-def nwAlignT (S : Matrix) (gapOpen : Int) (r q : List Nat) : Except Err (List Pair × Bool) :=
+def nwAlignT (aware : Bool) (S : Matrix) (gapOpen : Int) (r q : List Nat) :
+    Except Err (List Pair × Bool) :=
   let R := r.length
   let C := q.length
   let t := nwTable S gapOpen r q
   let e := t.at R C
   let layer : Kind := if vgt e.u e.d then (if vgt e.l e.u then .l else .u)
                       else (if vgt e.l e.d then .l else .m)
-  match tbLoop false t S gapOpen r q R C (R + C)
+  match tbLoop aware false t S gapOpen r q R C (R + C)
       { i := R, j := C, layer, last := .m, score := 0, maxI := R, maxJ := C, aln := [] } with
   | .error e => .error e
   | .ok st =>
@@ -312,21 +325,22 @@ def nwAlignT (S : Matrix) (gapOpen : Int) (r q : List Nat) : Except Err (List Pa
     else .ok (st'.aln, st.tie)
 
 def nwAlign (S : Matrix) (gapOpen : Int) (r q : List Nat) : Except Err (List Pair) :=
-  (nwAlignT S gapOpen r q).map (·.1)
+  (nwAlignT true S gapOpen r q).map (·.1)
 
 /-- `SWAffine.alignType` after the letter checks -/
-def swAlignT (S : Matrix) (gapOpen : Int) (r q : List Nat) : Except Err (List Pair × Bool) :=
+def swAlignT (aware : Bool) (S : Matrix) (gapOpen : Int) (r q : List Nat) :
+    Except Err (List Pair × Bool) :=
   let R := r.length
   let C := q.length
   let t := swTable S gapOpen r q
   let (_, mi, mj) := swBest (swRows S gapOpen r q)
-  match tbLoop true t S gapOpen r q R C (mi + mj)
+  match tbLoop aware true t S gapOpen r q R C (mi + mj)
       { i := mi, j := mj, layer := .m, last := .m, score := 0, maxI := mi, maxJ := mj, aln := [] } with
   | .error e => .error e
   | .ok st => .ok (st.emit.aln, st.tie)
 
 def swAlign (S : Matrix) (gapOpen : Int) (r q : List Nat) : Except Err (List Pair) :=
-  (swAlignT S gapOpen r q).map (·.1)
+  (swAlignT true S gapOpen r q).map (·.1)
 
 /-- end row of `FittedAffine`: the last `y ≥ 1` maximising `table[y*c+c-1][diag]`
     (`max := minInt; if v >= max { i = y; max = v }`) -/
@@ -337,12 +351,13 @@ def fitEnd (t : Table) (C : Nat) : Nat → Nat → (Nat × V) → Nat
     fitEnd t C n (y + 1) (if vgt best.2 v then best else (y, v))
 
 /-- `FittedAffine.alignType` after the checks -/
-def fitAlignT (S : Matrix) (gapOpen : Int) (r q : List Nat) : Except Err (List Pair × Bool) :=
+def fitAlignT (aware : Bool) (S : Matrix) (gapOpen : Int) (r q : List Nat) :
+    Except Err (List Pair × Bool) :=
   let R := r.length
   let C := q.length
   let t := fitTable S gapOpen r q
   let i := fitEnd t C R 1 (0, none)
-  match tbLoop false t S gapOpen r q R C (i + C)
+  match tbLoop aware false t S gapOpen r q R C (i + C)
       { i := i, j := C, layer := .m, last := .m, score := 0, maxI := i, maxJ := C, aln := [] } with
   | .error e => .error e
   | .ok st =>
@@ -351,7 +366,7 @@ def fitAlignT (S : Matrix) (gapOpen : Int) (r q : List Nat) : Except Err (List P
     else .ok (st.emit.aln, st.tie)
 
 def fitAlign (S : Matrix) (gapOpen : Int) (r q : List Nat) : Except Err (List Pair) :=
-  (fitAlignT S gapOpen r q).map (·.1)
+  (fitAlignT true S gapOpen r q).map (·.1)
 
 /-! ### argument validation (the `Align` wrappers and the head of `alignType`) -/
 
@@ -391,10 +406,22 @@ def letterCheck (w : Which) (r q : List Int) : Except Err Unit :=
       | some p => .error (.letterR p)
       | none => .ok ()
 
-/-- did the traceback of the model take a `case` of another layer (ghost flag, `TB.tie`)? -/
+/-- the three `alignType` bodies with the traceback switch of the given kind, and the ghost flag -/
+def alignT (aware : Bool) (w : Which) (S : Matrix) (gapOpen : Int) (r q : List Nat) :
+    Except Err (List Pair × Bool) :=
+  match w with
+  | .nw => nwAlignT aware S gapOpen r q
+  | .sw => swAlignT aware S gapOpen r q
+  | .fit => fitAlignT aware S gapOpen r q
+
+/-- the pairs the traceback *before the repair of K5* (layer-blind switch) returns -/
+def legacyPairs (w : Which) (S : Matrix) (gapOpen : Int) (r q : List Nat) : Except Err (List Pair) :=
+  (alignT false w S gapOpen r q).map (·.1)
+
+/-- did the layer-blind traceback (before the repair of K5) take a `case` of another layer
+    (ghost flag, `TB.tie`)?  The repaired traceback never does (`Proofs/TraceFaith`). -/
 def tieSwitched (w : Which) (S : Matrix) (gapOpen : Int) (r q : List Nat) : Bool :=
-  match (match w with
-         | .nw => nwAlignT S gapOpen r q | .sw => swAlignT S gapOpen r q | .fit => fitAlignT S gapOpen r q) with
+  match alignT false w S gapOpen r q with
   | .ok (_, t) => t
   | .error _ => false
 
